@@ -63,8 +63,15 @@ def _get_unmarshaller(  # type: ignore[return]
     node: graph.TypeNode,
     context: routines.ContextT,
 ) -> routines.AbstractMarshaller[T]:
+    if node.cyclic and not inspection.isforwardref(node.type):
+        # A deferred subscripted generic: resolved through its own routine at call-time.
+        return DelayedMarshaller(node.type, context=context, var=node.var)
+
     if node.type in context:
-        return context[node.type]
+        found = context[node.type]
+        # The placeholder of a deferred annotation gives way to the real routine.
+        if node.cyclic or not isinstance(found, DelayedMarshaller):
+            return found
 
     for check, unmarshaller_cls in _HANDLERS.items():
         if check(node.unwrapped):
